@@ -287,6 +287,26 @@ def part_cross(ctx):
         ('LinearCredit negative', lambda: __import__('mitxgraders').attemptcredit.LinearCredit(decrease_credit_steps=0)),
         ('GeometricCredit factor > 1', lambda: __import__('mitxgraders').attemptcredit.GeometricCredit(factor=1.5)),
     ]
+    # rules that no other option may switch off (suppress_warnings only silences the override-of-defaults warnings)
+    hard = [
+        ('whitelist+blacklist', dict(whitelist=['sin'], blacklist=['cos'])),
+        ('unknown blacklist entry', dict(blacklist=['nosuchfunction'])),
+        ('unknown whitelist entry', dict(whitelist=['nosuchfunction'])),
+        ('variable / constant collision', dict(variables=['x'], user_constants={'x': 1})),
+        ('variable / constant collision (2)', dict(variables=['x', 'y'], user_constants={'c': 2, 'y': 3.5})),
+        ('duplicate variables', dict(variables=['x', 'x'])),
+        ('sample_from for an undeclared variable', dict(variables=['x'], sample_from={'y': [1, 2]})),
+        ('bad sample_from value', dict(variables=['x'], sample_from={'x': 'banana'})),
+        ('negative tolerance', dict(tolerance=-1)),
+    ]
+    extras = [dict(suppress_warnings=True), dict(debug=True), dict(suppress_warnings=True, samples=3), dict(suppress_warnings=True, metric_suffixes=True)]
+    for label, kw in hard:
+        for cls in (M.FormulaGrader, M.MatrixGrader):
+            for ex in extras:
+                for form in ('kwargs', 'dict'):
+                    cfg = dict(kw, **ex)
+                    bad.append(('%s [%s, %s, %s]' % (label, cls.__name__, '+'.join(sorted(ex)), form),
+                                (lambda cls=cls, cfg=cfg: cls(**cfg)) if form == 'kwargs' else (lambda cls=cls, cfg=cfg: cls(cfg))))
     for label, mk in bad:
         k, v = D.run_impl(mk)
         ok = k == 'err' and (v[1] in ('ConfigError', 'Error') or v[1].endswith('Invalid'))
